@@ -133,6 +133,8 @@ pub fn run_history(cfg: &LensCfg, h: &[Op], with_epilogue: bool, keep_key_bytes:
 struct StateRec {
     parent: u32,
     op: Op,
+    /// For root states (parent == u32::MAX): index of the construction prefix that builds it
+    root: u32,
 }
 
 pub struct Found {
@@ -161,6 +163,8 @@ pub struct ExploreResult {
     pub machinery_errors: Vec<String>,
     /// Violations of properties other than the focus: (property, count, one sample)
     pub pruned_other: Vec<(String, u64, Found)>,
+    pub seed_prefixes: u64,
+    pub seed_states: u64,
 }
 
 pub struct Limits {
@@ -172,6 +176,8 @@ pub struct Limits {
     pub fresh_thread_depth: usize,
     /// Property whose violations stop the search; violations of other properties only prune the state
     pub focus: Option<String>,
+    /// Start the search from every state built by a family of construction prefixes instead of the empty heap
+    pub seed_family: Option<String>,
 }
 
 fn add_stats(a: &mut Stats, b: &Stats) {
@@ -219,18 +225,86 @@ pub fn explore(cfg: &LensCfg, lim: &Limits) -> ExploreResult {
         return res;
     }
     seen.insert(root.key);
-    arena.push(StateRec { parent: u32::MAX, op: Op::new(Code::Collect, 0, 0, 0) });
+    let mut roots: Vec<Vec<Op>> = vec![vec![]];
+    arena.push(StateRec { parent: u32::MAX, op: Op::new(Code::Collect, 0, 0, 0), root: 0 });
     let mut frontier: Vec<(u32, Summary)> = vec![(0, root.summary)];
     res.states = 1;
     let mut depth = 0usize;
 
-    let history_of = |arena: &Vec<StateRec>, mut idx: u32, out: &mut Vec<Op>| {
+    // Graph-seeded exploration: every state built by the family's construction prefixes is an initial state
+    if let Some(fam) = &lim.seed_family {
+        let prefixes = crate::seeds::generate(fam, cfg);
+        res.seed_prefixes = prefixes.len() as u64;
+        let next = AtomicUsize::new(0);
+        let outs: Mutex<Vec<(usize, ExecResult)>> = Mutex::new(Vec::new());
+        std::thread::scope(|sc| {
+            for wid in 0..lim.threads.max(1) {
+                let prefixes = &prefixes;
+                let next = &next;
+                let outs = &outs;
+                sc.spawn(move || {
+                    warm_up_thread();
+                    let mut local: Vec<(usize, ExecResult)> = Vec::new();
+                    loop {
+                        let i = next.fetch_add(1, Ordering::Relaxed);
+                        if i >= prefixes.len() {
+                            break;
+                        }
+                        crash::set_inflight(wid, &prefixes[i]);
+                        let r = run_history(cfg, &prefixes[i], true, false);
+                        local.push((i, r));
+                    }
+                    crash::clear_inflight(wid);
+                    outs.lock().unwrap().extend(local);
+                });
+            }
+        });
+        let mut outs = outs.into_inner().unwrap();
+        outs.sort_by_key(|x| x.0);
+        for (i, r) in outs {
+            res.executions += 1;
+            res.transitions += 1;
+            add_stats(&mut res.stats, &r.stats);
+            if !r.violations.is_empty() {
+                let relevant = match &lim.focus {
+                    None => true,
+                    Some(f) => r.violations.iter().any(|v| v.prop == f.as_str() || v.prop == "ANY" || v.prop == "MACHINERY" || (f == "C07" && v.msg.starts_with(world::AFTER_FAULT_PREFIX))),
+                };
+                if relevant {
+                    res.found.push(Found { history: prefixes[i].clone(), epilogue: r.epilogue, violations: r.violations });
+                }
+                continue;
+            }
+            if seen.insert(r.key) {
+                let ri = roots.len() as u32;
+                roots.push(prefixes[i].clone());
+                let idx = arena.len() as u32;
+                arena.push(StateRec { parent: u32::MAX, op: Op::new(Code::Collect, 0, 0, 0), root: ri });
+                frontier.push((idx, r.summary));
+                res.states += 1;
+            }
+        }
+        res.seed_states = frontier.len() as u64;
+        if !res.found.is_empty() {
+            res.found.sort_by(|a, b| (a.history.len() + a.epilogue.len(), &a.history).cmp(&(b.history.len() + b.epilogue.len(), &b.history)));
+            res.cut_reason = Some("violation found while building the seed family".to_string());
+            res.wall_s = t0.elapsed().as_secs_f64();
+            return res;
+        }
+    }
+
+    let roots_ref = &roots;
+    let history_of = move |arena: &Vec<StateRec>, mut idx: u32, out: &mut Vec<Op>| {
         out.clear();
         while arena[idx as usize].parent != u32::MAX {
             out.push(arena[idx as usize].op);
             idx = arena[idx as usize].parent;
         }
         out.reverse();
+        let prefix = &roots_ref[arena[idx as usize].root as usize];
+        if !prefix.is_empty() {
+            out.splice(0..0, prefix.iter().copied());
+        }
     };
 
     loop {
@@ -324,7 +398,7 @@ pub fn explore(cfg: &LensCfg, lim: &Limits) -> ExploreResult {
                                             }
                                             let relevant = match &lim.focus {
                                                 None => true,
-                                                Some(f) => r.violations.iter().any(|v| v.prop == f.as_str() || v.prop == "ANY" || v.prop == "MACHINERY"),
+                                                Some(f) => r.violations.iter().any(|v| v.prop == f.as_str() || v.prop == "ANY" || v.prop == "MACHINERY" || (f == "C07" && v.msg.starts_with(world::AFTER_FAULT_PREFIX))),
                                             };
                                             let fnd = Found { history: hist.clone(), epilogue: r.epilogue.clone(), violations: r.violations.clone() };
                                             if relevant {
@@ -413,7 +487,7 @@ pub fn explore(cfg: &LensCfg, lim: &Limits) -> ExploreResult {
             for cand in co.into_inner().unwrap() {
                 if seen.insert(cand.key) {
                     let idx = arena.len() as u32;
-                    arena.push(StateRec { parent: cand.parent, op: cand.op });
+                    arena.push(StateRec { parent: cand.parent, op: cand.op, root: 0 });
                     next.push((idx, cand.summary));
                     res.states += 1;
                     if cand.buffer_nonempty {
